@@ -55,6 +55,9 @@ func main() {
 	if id == "stress20" {
 		stressMain(os.Args[2:])
 	}
+	if id == "stress12" {
+		stress12Main(os.Args[2:])
+	}
 	if id == "c03child" {
 		c03ChildMain(os.Args[2])
 		return
